@@ -220,29 +220,86 @@ Section StringsFamily.
 Import Strings StringsOps NoPanicStrings.
 Local Open Scope Z_scope.
 
-(* a []string / [][]byte passed by value or by non-nil pointer ([good]; nil and empty sequences
-   included), any path, operator, operand, iterator, other operand, destination that is not a
-   typed nil pointer, assigned value that is not a typed nil *string / *[]byte: every method returns *)
+(* EVERY argument - a []string / [][]byte by value or by pointer (nil and empty sequences included), a
+   typed nil *[]string / *[][]byte, a foreign type -, any path, operator, operand, iterator, other
+   operand, source, destination, assigned value (a typed nil *string / *[]byte included): every method
+   of the code that tests pointers against nil ([v_nil_ptr w = true], in particular [fixed]) returns *)
 Theorem C02_strings_no_panic : forall w x y path o right it v nid dst,
-  good x = true -> good y = true -> (forall r, dst <> ANilPtr r) -> tval_ok v = true ->
-  nopanic (si_get_to x path) /\ nopanic (si_compare w x o right path) /\ nopanic (si_loop x it path) /\
-  nopanic (si_length x path) /\ nopanic (si_capacity x path) /\
+  v_nil_ptr w = true ->
+  nopanic (si_get_to w x path) /\ nopanic (si_compare w x o right path) /\ nopanic (si_loop w x it path) /\
+  nopanic (si_length w x path) /\ nopanic (si_capacity w x path) /\
   nopanic (si_deep_equal w x y) /\ nopanic (si_deep_equal w y x) /\
   nopanic (si_set_with_buffer w x v path nid) /\
-  nopanic (si_copy x nid) /\ nopanic (si_copy_to x dst nid) /\ nopanic (si_reset x).
+  nopanic (si_copy w x nid) /\ nopanic (si_copy_to w x dst nid) /\ nopanic (si_copy_to w y x nid) /\ nopanic (si_reset w x).
 Proof.
-  intros w x y path o right it v nid dst G GY D T.
+  intros w x y path o right it v nid dst N.
+  pose proof (safe_fixed w x N) as G. pose proof (safe_fixed w y N) as GY. pose proof (safe_fixed w dst N) as D.
+  pose proof (tval_safe_fixed w v N) as T.
+  repeat split;
+    [apply get_to_np|apply compare_np|apply loop_np|apply length_np|apply capacity_np|apply deep_equal_np|apply deep_equal_np
+    |apply set_np|apply copy_np|apply copy_to_np|apply copy_to_np|apply reset_np]; assumption.
+Qed.
+Print Assumptions C02_strings_no_panic.
+
+(* the code before the nil tests (any version): no panic as long as no typed nil pointer is handed in -
+   x, y and dst anything else (foreign types included), v not a typed nil *string / *[]byte *)
+Theorem C02_strings_no_panic_without_nil_pointers : forall w x y path o right it v nid dst,
+  (forall r, x <> ANilPtr r) -> (forall r, y <> ANilPtr r) -> (forall r, dst <> ANilPtr r) -> tval_ok v = true ->
+  nopanic (si_get_to w x path) /\ nopanic (si_compare w x o right path) /\ nopanic (si_loop w x it path) /\
+  nopanic (si_length w x path) /\ nopanic (si_capacity w x path) /\
+  nopanic (si_deep_equal w x y) /\ nopanic (si_deep_equal w y x) /\
+  nopanic (si_set_with_buffer w x v path nid) /\
+  nopanic (si_copy w x nid) /\ nopanic (si_copy_to w x dst nid) /\ nopanic (si_reset w x).
+Proof.
+  intros w x y path o right it v nid dst NX NY ND TV.
+  pose proof (safe_not_nil w x NX) as G. pose proof (safe_not_nil w y NY) as GY. pose proof (safe_not_nil w dst ND) as D.
+  pose proof (tval_safe_ok w v TV) as T.
   repeat split;
     [apply get_to_np|apply compare_np|apply loop_np|apply length_np|apply capacity_np|apply deep_equal_np|apply deep_equal_np
     |apply set_np|apply copy_np|apply copy_to_np|apply reset_np]; assumption.
 Qed.
-Print Assumptions C02_strings_no_panic.
+Print Assumptions C02_strings_no_panic_without_nil_pointers.
+
+(* what the repaired code answers for a typed nil pointer.  Every read - Get, Compare, Loop, Length,
+   Capacity, either operand of DeepEqual, the source of Copy / CopyTo - treats it as the nil slice of that
+   representation handed in by value: it finds nothing and reports no error of its own (two nil pointers,
+   and a nil pointer and an empty sequence, are equal) *)
+Theorem C02_strings_nil_pointer_reads_as_nil_slice : forall w r path o right it y dst nid, v_nil_ptr w = true ->
+  si_get_to w (ANilPtr r) path = si_get_to w (AVal (nil_sq r)) path /\
+  si_compare w (ANilPtr r) o right path = si_compare w (AVal (nil_sq r)) o right path /\
+  si_loop w (ANilPtr r) it path = si_loop w (AVal (nil_sq r)) it path /\
+  si_length w (ANilPtr r) path = si_length w (AVal (nil_sq r)) path /\
+  si_capacity w (ANilPtr r) path = si_capacity w (AVal (nil_sq r)) path /\
+  si_deep_equal w (ANilPtr r) y = si_deep_equal w (AVal (nil_sq r)) y /\
+  si_deep_equal w y (ANilPtr r) = si_deep_equal w y (AVal (nil_sq r)) /\
+  si_copy w (ANilPtr r) nid = si_copy w (AVal (nil_sq r)) nid /\
+  si_copy_to w (ANilPtr r) dst nid = si_copy_to w (AVal (nil_sq r)) dst nid.
+Proof. exact nil_pointer_reads_as_nil_slice. Qed.
+Print Assumptions C02_strings_nil_pointer_reads_as_nil_slice.
+
+(* nothing is written through it: Set leaves it alone, Reset and CopyTo (whatever the source) refuse the
+   nil destination with the unsupported-type error *)
+Theorem C02_strings_nil_pointer_not_written : forall w r src v path nid, v_nil_ptr w = true ->
+  (exists e, si_set_with_buffer w (ANilPtr r) v path nid = Ret (ANilPtr r, nid) e) /\
+  si_reset w (ANilPtr r) = Ret (ANilPtr r) (Some EUnsupported) /\
+  si_copy_to w src (ANilPtr r) nid = Ret (ANilPtr r, nid) (Some EUnsupported).
+Proof. exact nil_pointer_not_written. Qed.
+Print Assumptions C02_strings_nil_pointer_not_written.
+
+(* a typed nil *string / *[]byte handed to Set is no text: nothing is stored, whatever the sequence *)
+Theorem C02_strings_nil_text_ignored : forall w x v path nid,
+  v_nil_ptr w = true -> tval_ok v = false ->
+  exists e, si_set_with_buffer w x v path nid = Ret (x, nid) e.
+Proof. exact nil_text_ignored. Qed.
+Print Assumptions C02_strings_nil_text_ignored.
+
+Definition one_elem : sq := {| q_rep := SS; q_nil := false; q_elems := [ {| e_id := 1; e_data := []; e_cap := 0 |} ]; q_cap := Some 1 |}.
 
 (* a foreign type is refused by every method *)
 Theorem C02_strings_foreign : forall w path o right it v nid,
-  nopanic (si_get_to AForeign path) /\ nopanic (si_compare w AForeign o right path) /\ nopanic (si_loop AForeign it path) /\
-  nopanic (si_length AForeign path) /\ nopanic (si_capacity AForeign path) /\
-  nopanic (si_set_with_buffer w AForeign v path nid) /\ nopanic (si_copy AForeign nid) /\ nopanic (si_reset AForeign).
+  nopanic (si_get_to w AForeign path) /\ nopanic (si_compare w AForeign o right path) /\ nopanic (si_loop w AForeign it path) /\
+  nopanic (si_length w AForeign path) /\ nopanic (si_capacity w AForeign path) /\
+  nopanic (si_set_with_buffer w AForeign v path nid) /\ nopanic (si_copy w AForeign nid) /\ nopanic (si_reset w AForeign).
 Proof.
   intros w path o right it v nid.
   repeat split; try exact I;
@@ -250,16 +307,22 @@ Proof.
 Qed.
 Print Assumptions C02_strings_foreign.
 
-(* Refuted: a typed nil *[]string / *[][]byte is dereferenced by sp() in every method that reads its
-   argument, by Reset, and as CopyTo destination when there is something to copy; a typed nil
-   *string / *[]byte as assigned value is dereferenced by Set (open finding strings_nil_pointer) *)
-Definition one_elem : sq := {| q_rep := SS; q_nil := false; q_elems := [ {| e_id := 1; e_data := []; e_cap := 0 |} ]; q_cap := Some 1 |}.
+(* Refuted for the code before the nil tests (repaired by the fix: commit of findings/C02.txt,
+   strings_nil_pointer): a typed nil *[]string / *[][]byte was dereferenced by sp() in every method that
+   reads its argument, by Reset, and as CopyTo destination when there was something to copy; a typed nil
+   *string / *[]byte as assigned value was dereferenced by Set - and the repaired code returns on the
+   same inputs *)
 Theorem C02_refuted_strings_nil_pointer :
-  si_get_to (ANilPtr SS) ["0"%string] = Panic NilDeref /\
-  si_length (ANilPtr PP) [] = Panic NilDeref /\
-  si_reset (ANilPtr SS) = Panic NilDeref /\
-  si_copy_to (AVal one_elem) (ANilPtr SS) 0 = Panic NilDeref /\
-  si_set_with_buffer fixed (APtr one_elem) (TStringPtr None) ["0"%string] 0 = Panic NilDeref.
+  (si_get_to before_nilfix (ANilPtr SS) ["0"%string] = Panic NilDeref /\
+   si_length before_nilfix (ANilPtr PP) [] = Panic NilDeref /\
+   si_reset before_nilfix (ANilPtr SS) = Panic NilDeref /\
+   si_copy_to before_nilfix (AVal one_elem) (ANilPtr SS) 0 = Panic NilDeref /\
+   si_set_with_buffer before_nilfix (APtr one_elem) (TStringPtr None) ["0"%string] 0 = Panic NilDeref) /\
+  (si_get_to fixed (ANilPtr SS) ["0"%string] = Ret None None /\
+   si_length fixed (ANilPtr PP) [] = Ret NotWritten None /\
+   si_reset fixed (ANilPtr SS) = Ret (ANilPtr SS) (Some EUnsupported) /\
+   si_copy_to fixed (AVal one_elem) (ANilPtr SS) 0 = Ret (ANilPtr SS, 0) (Some EUnsupported) /\
+   si_set_with_buffer fixed (APtr one_elem) (TStringPtr None) ["0"%string] 0 = Ret (APtr one_elem, 0) None).
 Proof. repeat split; vm_compute; reflexivity. Qed.
 Print Assumptions C02_refuted_strings_nil_pointer.
 End StringsFamily.
